@@ -170,3 +170,83 @@ def C19_rotation_after_last_value_edit(case, params):
     import rt
     import findings_rt as FR
     return FR.rotation_after_last_value_edit(case, rt.c19_check)
+
+
+_KEY_EDITS = {"u": "cell_universe", "vol": "volume", "fill": "fill_universe", "lat": "lattice"}
+
+
+def C19_moved_value_blanks(case, params):
+    """F-C19-moved-value-blanks: a per-cell datum K (u, vol, fill, lat) given on the cell cards is changed to a
+    spelling of another width AND K is printed in the data block (print_in_data_block[K] = True, before or after the
+    edit): the number of blanks after the changed value on the generated K card depends on whether the cell was
+    written in between ('U J 7  7' / 'U J 7 7', 'VOL 6 0.125  100' / 'VOL 6 0.125 100').
+    Feature: placement of K towards the data block + an edit of K + the two outputs differ ONLY in blanks, on a line
+    that is a K card.  Ablation: the same program without the edits of K."""
+    import rt
+    if case.get("kind") != "observation-changed-output":
+        return False
+    diff = (case.get("detail") or {}).get("diff") or {}
+    a, b = str(diff.get("first", "")).split(), str(diff.get("second", "")).split()
+    prog = case.get("prog", [])
+    keys = {e.get("key") for e in prog if e.get("kind") == "placement" and e.get("data_block")} & set(_KEY_EDITS)
+    if a or b:
+        if a != b or not a or a[0].lower().lstrip("*") not in keys:
+            return False
+        keys = {a[0].lower().lstrip("*")}
+    keys = {k for k in keys if any(e.get("kind") == _KEY_EDITS[k] for e in prog)}
+    if not keys:
+        return False
+    drop = {_KEY_EDITS[k] for k in keys}
+    return rt.c19_check(case["case"], [e for e in prog if e.get("kind") not in drop]) is None
+
+
+_JOINT = re.compile(r"^(\s{0,4}\*?imp:)([a-z#/|]+(?:,[a-z#/|]+)+)(.*)$", re.I)
+
+
+def C19_joint_imp_particle_order(case, params):
+    """F-C19-joint-imp-particle-order: a data-block card 'imp:n,e ...' and two importance edits after which the
+    particles have equal importances again (n and e of one cell set to the same value, or one value set and set back):
+    the card splits after the first edit and is joined again after the second; the ORDER of the particles in the joined
+    classifier ('imp:n,e' / 'imp:e,n') depends on whether the problem was written in between.  Feature: a joint IMP
+    card in the data block + >= 2 importance edits + the two outputs differ only in the particle order of an IMP
+    classifier.  Ablation: the same file with one IMP
+    card per particle."""
+    import rt, spec
+    if case.get("kind") != "observation-changed-output":
+        return False
+    diff = (case.get("detail") or {}).get("diff") or {}
+    a, b = str(diff.get("first", "")).split(), str(diff.get("second", "")).split()
+    if a and b:
+        if not (a[0].lower().startswith(("imp:", "*imp:")) and a[1:] == b[1:]
+                and sorted(a[0].lower().split(":")[1].split(",")) == sorted(b[0].lower().split(":")[-1].split(","))):
+            return False
+    c = case["case"]
+    prog = case.get("prog", [])
+    if sum(1 for e in prog if e.get("kind") == "importance") < 2:
+        return False
+    lines = c["text"].split("\n")
+    out = []
+    i = 0
+    hit = False
+    while i < len(lines):
+        x = lines[i].rstrip("\r").expandtabs(8)
+        m = _JOINT.match(x)
+        if not m:
+            out.append(lines[i])
+            i += 1
+            continue
+        j = i + 1
+        while j < len(lines) and (spec.is_comment_line(lines[j]) or
+                                  (lines[j].strip() and not lines[j].rstrip("\r").expandtabs(8)[:5].strip())):
+            j += 1
+        while j > i + 1 and spec.is_comment_line(lines[j - 1]):
+            j -= 1
+        cr = "\r" if lines[i].endswith("\r") else ""
+        for part in m.group(2).split(","):
+            out.append(m.group(1) + part + m.group(3) + cr)
+            out.extend(lines[i + 1:j])
+        hit = True
+        i = j
+    if not hit:
+        return False
+    return rt.c19_check(dict(c, text="\n".join(out)), prog) is None
